@@ -160,7 +160,7 @@ func vfFlatStored(idx *FlatIndex, id uint32) []float32 {
 
 // ---- persistent store ----
 
-func vfStoreRotate(st *PersistentHybridIndex)            { st.memtableQueue.Rotate() }
+func vfStoreRotate(st *PersistentHybridIndex) { st.memtableQueue.Rotate() }
 
 // vfStoreKickFlushWorker wakes the background flush worker the way maybeScheduleFlush does.
 func vfStoreKickFlushWorker(st *PersistentHybridIndex) {
